@@ -87,3 +87,28 @@ fn bloom_is_set_contract_4096_thorough() {
     kani::assume(idx <= b.size as usize);
     assert!(b.is_set(idx) == spec_bit(&b.bitset, idx));
 }
+
+//@harness bloom_add_paths_present props=C14,C13 target=Bloom::contains_or_add bounded=set_locs_le_3 claim=for the 512-bit layout, any contents, any 64-bit hash and up to 3 probe locations: after add(h) as well as after contains_or_add(h) the hash is reported present by contains(h), a second contains_or_add(h) answers false, and bits that were set stay set (every insertion path and the query path walk the same probe sequence)
+#[kani::proof]
+#[kani::unwind(5)]
+fn bloom_add_paths_present() {
+    let mut b = arbitrary_bloom::<8>();
+    kani::assume(b.set_locs <= 3);
+    kani::assume(b.elem_num < 1 << 32);
+    b.size_exp = 9;
+    b.shift = 64 - 9;
+    let h: u64 = kani::any();
+    let j: usize = kani::any();
+    kani::assume(j <= b.size as usize);
+    let before = spec_bit(&b.bitset, j);
+    let via_coa: bool = kani::any();
+    kani::cover!(via_coa && (h << 9) == 0 && h != 0, "hashes that differ only in their high bits are reachable");
+    if via_coa {
+        b.contains_or_add(h);
+    } else {
+        b.add(h);
+    }
+    assert!(b.contains(h));
+    assert!(!before || spec_bit(&b.bitset, j));
+    assert!(!b.contains_or_add(h));
+}
